@@ -25,6 +25,7 @@ EXPLANATION = (
     "for compound expressions / non-unit exponents and non-multiplicative units; all __getattr__ hooks reject private "
     "names first and __contains__ maps exactly UndefinedUnitError to False. Does not decide the cross product of "
     "spellings or collisions (data dependent).")
+EXPLANATION += ' Also decided (rules added after the second round of seeded changes): on every path of _helper_single_adder that stores a spelling the spelling is also indexed (local aliases of the unit table resolved at the call sites).'
 
 
 
